@@ -227,6 +227,10 @@ def dsuffix_definition():
                     patterns=[dsuffix(s_, t_)])
 
 
+def expand_children(p):
+  return sym.ufun('expand_children', PathS, sym.BoolS)(p)
+
+
 def induct(x, name, P, flat):
   """Structural induction over paths: proves  forall sg. P(sg)  from  P(nil)  and
   forall sg, c. P(sg) => P(snoc(sg, c));  `flat` is the same statement as ONE quantifier
@@ -257,9 +261,12 @@ def lemmas(x, alive):
       [nu_], z3.Implies(z3.And(anc(nu_, sg), nu_ != sg),
                         z3.Exists([c_], anc(snoc(nu_, c_), sg))),
       patterns=[anc(nu_, sg)]),
+      # NOTE the trigger: instantiating this lemma creates a new anc(snoc(nu, c), sg) term,
+      # which would match it again (a matching loop down the tree); it is therefore only
+      # fired for nodes explicitly marked with expand_children(nu)
       sym.forall([sg_, nu_], z3.Implies(z3.And(anc(nu_, sg_), nu_ != sg_),
                                         z3.Exists([c_], anc(snoc(nu_, c_), sg_))),
-                 patterns=[anc(nu_, sg_)]))
+                 patterns=[[anc(nu_, sg_), expand_children(nu_)]]))
   induct(x, 'ancestor_is_not_deeper', lambda sg: z3.And(depth(sg) >= 0, sym.forall(
       [nu_], z3.Implies(anc(nu_, sg), depth(nu_) <= depth(sg)), patterns=[anc(nu_, sg)])),
       z3.And(sym.forall([sg_], depth(sg_) >= 0, patterns=[depth(sg_)]),
@@ -360,6 +367,7 @@ def _dfs_inv_parts(x):
   st = x.env.dfs_stack
   nu0 = _start(x)
   owner = x.env.ghost_owner.val      # ghost: collected path -> index in `selectors`
+  pathof = x.env.ghost_pathof.val    # ghost inverse: index in `selectors` -> collected path
   parts = [
       ('tree_and_map_untouched', z3.And(
           SelTree.box(sm.fields['_selector_tree']) ==
@@ -369,9 +377,9 @@ def _dfs_inv_parts(x):
                             z3.And(alive[st.arr[t2_]], anc(nu0, st.arr[t2_]))),
           patterns=[st.arr[t2_]])),
       ('collected_are_terminals_under_the_start', z3.And(sel.len >= 0, sym.forall(
-          [i_], z3.Implies(z3.And(0 <= i_, i_ < sel.len), z3.Exists(
-              [sg_], z3.And(term[sg_], anc(nu0, sg_), tval[sg_] == sel.arr[i_],
-                            owner[sg_] == i_))), patterns=[sel.arr[i_]]))),
+          [i_], z3.Implies(z3.And(0 <= i_, i_ < sel.len), z3.And(
+              term[pathof[i_]], anc(nu0, pathof[i_]), tval[pathof[i_]] == sel.arr[i_],
+              owner[pathof[i_]] == i_)), patterns=[sel.arr[i_], pathof[i_]]))),
       ('every_terminal_under_the_start_is_collected_or_pending', sym.forall(
           [sg_], z3.Implies(z3.And(term[sg_], anc(nu0, sg_)), z3.Or(
               z3.And(0 <= owner[sg_], owner[sg_] < sel.len, sel.arr[owner[sg_]] == tval[sg_]),
@@ -389,11 +397,9 @@ def _dfs_inv_parts(x):
           patterns=[[anc(st.arr[i_], sg_), st.arr[t2_]]])),
       ('owner_indexes_only_collected', sym.forall(
           [sg_], z3.And(-1 <= owner[sg_], owner[sg_] < sel.len), patterns=[owner[sg_]])),
-      ('owner_is_injective_on_collected', sym.forall(
-          [sg_, mu_], z3.Implies(
-              z3.And(term[sg_], term[mu_], 0 <= owner[sg_], owner[sg_] < sel.len,
-                     owner[sg_] == owner[mu_]), sg_ == mu_),
-          patterns=[[owner[sg_], owner[mu_]]])),
+      ('owner_and_pathof_are_inverse', sym.forall(
+          [sg_], z3.Implies(z3.And(0 <= owner[sg_], owner[sg_] < sel.len),
+                            pathof[owner[sg_]] == sg_), patterns=[owner[sg_]])),
   ]
   return parts
 
@@ -401,6 +407,9 @@ def _dfs_inv_parts(x):
 GPath = sym.KDict(sym.KPath, KInt)
 c.ghost_vars['owner'] = lambda x: sym.VDict(GPath, z3.K(PathS, z3.BoolVal(True)),
                                             z3.K(PathS, z3.IntVal(-1)))
+GIdx = sym.KDict(KInt, sym.KPath)
+c.ghost_vars['pathof'] = lambda x: sym.VDict(GIdx, z3.K(sym.IntS, z3.BoolVal(True)),
+                                             z3.K(sym.IntS, nil))
 
 
 def _dfs_ghost(ex, x, k):
@@ -430,6 +439,7 @@ def _dfs_ghost(ex, x, k):
     x.path.oblige('selector_map.py::SelectorMap.matching_selectors/hint/'
                   'older_stack_entries_keep_their_position', h4)
     x.path.assume(h4)
+    x.path.assume(expand_children(nd.path))       # marker: fire the child lemma for this node
     h3 = sym.forall([sg_], z3.Implies(
         z3.And(anc(nd.path, sg_), sg_ != nd.path, alive[sg_]),
         z3.Exists([t2_], z3.And(base <= t2_, t2_ < st.len, anc(st.arr[t2_], sg_)))),
@@ -442,9 +452,23 @@ def _dfs_ghost(ex, x, k):
   sel = x.env.selectors
   node = x.env.node
   popped = node.node.path if isinstance(node, tree.VNodeCopy) else tree.as_node(node).path
-  grew = sel.len > x.ghost['dfs_sel_len_at_step']
-  newv = z3.If(grew, z3.Store(g.val, popped, sel.len - 1), g.val)
-  ex.frame.env['ghost_owner'] = sym.VDict(GPath, g.dom, newv)
+  # (decided structurally per path: the append branch is the one where the length term changed)
+  if z3.simplify(sel.len).eq(z3.simplify(x.ghost['dfs_sel_len_at_step'])):
+    return
+  # hints (proved, then assumed): the freshly collected name is the popped node's terminal,
+  # and the popped node was pending, hence not collected before
+  alive, term, tval, tnone = T(x.env.self)
+  hq = 'selector_map.py::SelectorMap.matching_selectors/hint/'
+  h5 = z3.And(term[popped], anc(_start(x), popped), alive[popped],
+              sel.arr[sel.len - 1] == tval[popped], sel.len - 1 >= 0)
+  x.path.oblige(hq + 'appended_name_is_the_terminal_of_the_popped_node', h5)
+  x.path.assume(h5)
+  h6 = z3.Not(z3.And(0 <= g.val[popped], g.val[popped] < sel.len - 1))
+  x.path.oblige(hq + 'popped_node_was_not_collected_before', h6)
+  x.path.assume(h6)
+  gp = x.env.ghost_pathof
+  ex.frame.env['ghost_owner'] = sym.VDict(GPath, g.dom, z3.Store(g.val, popped, sel.len - 1))
+  ex.frame.env['ghost_pathof'] = sym.VDict(gp.kind, gp.dom, z3.Store(gp.val, sel.len - 1, popped))
 
 
 _NPARTS = 7
@@ -455,8 +479,8 @@ c.loop(('dfs_stack', None),
             'collected_are_terminals_under_the_start',
             'every_terminal_under_the_start_is_collected_or_pending',
             'collected_and_pending_are_disjoint', 'pending_subtrees_are_disjoint',
-            'owner_indexes_only_collected', 'owner_is_injective_on_collected'])],
-       ghost=['owner'], ghost_step=_dfs_ghost,
+            'owner_indexes_only_collected', 'owner_and_pathof_are_inverse'])],
+       ghost=['owner', 'pathof'], ghost_step=_dfs_ghost,
        body_start=lambda ex, x, k: (
            x.ghost.__setitem__('dfs_sel_len_at_step', x.env.selectors.len),
            x.ghost.__setitem__('dfs_stack_at_step', (x.env.dfs_stack.len,
